@@ -134,3 +134,51 @@ pub open spec fn op_table(op: Opcode, a: int, b: int) -> TOut {
         _ => TOut::Err,   // Div / Or / And / Err / Merge have their own clauses
     }
 }
+
+// ---- control-flow nodes (if_statement.rs, not.rs, block.rs): additional TypeDef/Kind methods
+pub struct KindR { pub m: Ghost<Set<int>> }     // the `returns` kind of a TypeDef
+impl Clone for KindR {
+    #[verifier::external_body]
+    fn clone(&self) -> (r: Self) ensures r == *self { unimplemented!() }
+}
+impl KindR {
+    #[verifier::external_body] pub fn never() -> (r: KindR) ensures r.m@ == Set::<int>::empty() { unimplemented!() }
+    #[verifier::external_body] pub fn merge_keep(&mut self, other: KindR, overwrite: bool) ensures final(self).m@ == old(self).m@.union(other.m@) { unimplemented!() }
+}
+impl TypeDef {
+    pub uninterp spec fn spec_returns(self) -> Set<int>;
+    pub uninterp spec fn spec_never(self) -> bool;
+    #[verifier::external_body] pub fn null() -> (r: TypeDef) ensures r.m@ == set![NULL], !r.fall@ { unimplemented!() }
+    #[verifier::external_body] pub fn or_null(self) -> (r: TypeDef) ensures r.m@ == self.m@.insert(NULL), r.fall@ == self.fall@ { unimplemented!() }
+    #[verifier::external_body] pub fn is_never(&self) -> (r: bool) ensures r == self.spec_never() { unimplemented!() }
+    #[verifier::external_body] pub fn returns(&self) -> (r: &KindR) ensures r.m@ == self.spec_returns() { unimplemented!() }
+    #[verifier::external_body] pub fn with_returns(self, k: KindR) -> (r: TypeDef) ensures r.m@ == self.m@, r.fall@ == self.fall@, r.spec_returns() == k.m@ { unimplemented!() }
+    // result.returns_mut().merge_keep(k, false): only the `returns` component changes
+    #[verifier::external_body] pub fn returns_merge_keep(&mut self, k: KindR)
+        ensures final(self).m@ == old(self).m@, final(self).fall@ == old(self).fall@, final(self).spec_returns() == old(self).spec_returns().union(k.m@) { unimplemented!() }
+}
+impl TypeInfo {
+}
+pub struct BlockT { pub inner: Vec<ExprT>, pub new_scope: bool, pub id: Ghost<int> }
+impl BlockT {
+    pub uninterp spec fn spec_type(&self, s: TypeState) -> TypeDef;
+    pub uninterp spec fn spec_state(&self, s: TypeState) -> TypeState;
+    // Block::type_info as a callee of IfStatement::type_info / Predicate
+    #[verifier::external_body]
+    pub fn type_info(&self, state: &TypeState) -> (r: TypeInfo)
+        ensures r.result == self.spec_type(*state), r.state == self.spec_state(*state),
+    { unimplemented!() }
+    #[verifier::external_body]
+    pub fn apply_type_info(&self, state: &mut TypeState) -> (r: TypeDef)
+        ensures r == self.spec_type(*old(state)), *final(state) == self.spec_state(*old(state)),
+    { unimplemented!() }
+}
+pub struct PredicateT { pub inner: BlockT }
+impl PredicateT {
+    #[verifier::external_body]
+    pub fn apply_type_info(&self, state: &mut TypeState) -> (r: TypeDef)
+        ensures r == self.inner.spec_type(*old(state)), *final(state) == self.inner.spec_state(*old(state)),
+    { unimplemented!() }
+}
+pub struct IfStatement { pub predicate: PredicateT, pub if_block: BlockT, pub else_block: Option<BlockT> }
+pub struct Not { pub inner: Box<ExprT> }
